@@ -121,6 +121,9 @@ pub fn c14_configs(tier: Tier) -> Vec<OutCfg> {
             // a send refused because its caller-chosen id belongs to an exchange whose receipt is held must not touch
             // that exchange: it still releases and completes with its own PUBCOMP (seeded change C14_r6)
             vec![SK::Q2HoldId(5), SK::Q1Id(5), SK::Q2Hold],
+            // ... and a second exactly-once send with that id: refused; were it accepted it would take over the first
+            // exchange's PUBCOMP channel (seeded change C14_r7 freed the id at PUBREC)
+            vec![SK::Q2HoldId(5), SK::Q2HoldId(5), SK::Q1],
         ];
         if tier == Tier::Thorough {
             sets.push(vec![SK::Q2Hold, SK::Q2Hold, SK::Q2Hold]);
